@@ -35,7 +35,7 @@ def canon_event(world, ev):
 class Explorer:
     def __init__(self, init_fn, enabled_fn, apply_fn=None, monitors=(), state_monitors=(), extra_fn=None,
                  max_states=None, max_depth=None, time_cap=None, abstraction_checks=50, replay_every=0,
-                 stop_at_violation=False, expand_filter=None, label=''):
+                 stop_at_violation=False, expand_filter=None, label='', cover=None):
         """
         init_fn()            -> fresh initial World (also used for replay validation)
         enabled_fn(world)    -> list of events
@@ -55,6 +55,7 @@ class Explorer:
         self.stop_at_violation = stop_at_violation
         self.expand_filter = expand_filter
         self.label = label
+        self.cover = cover if cover is not None else collections.Counter()
         # results
         self.states = 0
         self.transitions = 0
@@ -182,4 +183,5 @@ class Explorer:
                                     history=v.history, detail=v.detail) for v in self.violations]
         d['samples'] = self.sample_histories
         d['outcomes'] = dict(self.outcomes)
+        d['cover'] = dict(self.cover)
         return d
